@@ -18,6 +18,15 @@ pub mod env {
         #[verifier::external_body]
         fn clone(&self) -> (r: Self) ensures r == *self { unimplemented!() }
     }
+    // Environment: a resource address knows (from its entity-type byte) whether the resource is fungible.
+    #[verifier::external_body]
+    #[derive(Clone, Copy)]
+    pub struct ResourceAddress { x: [u8; 30] }
+    impl ResourceAddress {
+        pub uninterp spec fn fungible(&self) -> bool;
+        #[verifier::external_body]
+        pub fn is_fungible(&self) -> (r: bool) ensures r == self.fungible() { unimplemented!() }
+    }
 }
 
 pub mod unit {
@@ -575,7 +584,7 @@ pub mod unit {
         @sig
             ensures ret is Ok <==> sat_general_nf(*self, ids@),
                     ret matches Err(e) ==> general_nf_err(*self, ids@, e),
-        @after <<self.required_ids.difference(ids)>> #1
+        @before <<self.allowed_ids.validate_ids(ids)>> #1
             proof { lemma_difference_empty(self.required_ids@, ids@); }
         @*/
         /*@fn radix-common/src/data/manifest/model/manifest_resource_assertion.rs :: impl GeneralResourceConstraint :: fn validate_amount
@@ -593,6 +602,10 @@ pub mod unit {
     }
 
     impl ManifestResourceConstraint {
+        /*@fn radix-common/src/data/manifest/model/manifest_resource_assertion.rs :: impl ManifestResourceConstraint :: fn is_valid_for
+        @sig
+            ensures ret == (if resource_address.fungible() { valid_mf(*self) } else { valid_mnf(*self) })
+        @*/
         /*@fn radix-common/src/data/manifest/model/manifest_resource_assertion.rs :: impl ManifestResourceConstraint :: fn is_valid_for_fungible_use
         @sig
             ensures ret == valid_mf(*self)
@@ -611,7 +624,7 @@ pub mod unit {
         @sig
             ensures ret is Ok <==> sat_nf(self, ids@),
                     ret matches Err(e) ==> non_fungible_err(self, ids@, e),
-        @after <<expected_exact_ids.difference(ids)>> #1
+        @before <<if let Some(disallowed_id)>> #1
                 proof { lemma_difference_empty(expected_exact_ids@, ids@); }
         @after <<ids.difference(&expected_exact_ids)>> #1
                 proof { lemma_difference_empty(ids@, expected_exact_ids@); }
